@@ -321,6 +321,12 @@ Theorem C18_padding_attribute_roundtrip : forall p, (0 <= s_val (pd_before p))%Q
 Proof. exact padding_attr_roundtrip. Qed.
 Print Assumptions C18_padding_attribute_roundtrip.
 
+Example C18_ex_point_stretch_roundtrip :
+  let p := mkPoint (mkSize (2675 # 1000) PX) (mkSize (1 # 8) PCT) in
+  let e := mkStretch (mkSize (5 # 10) CELL) (mkSize (100 # 1) EM) in
+  point_attr p = lit "2.68px 0.12%" /\ point_of_attr (point_attr p) = Ok (mkPoint (mkSize (67 # 25) PX) (mkSize (3 # 25) PCT))
+  /\ stretch_attr e = lit "0.5c 100em" /\ stretch_of_attr (stretch_attr e) = Ok (mkStretch (mkSize (1 # 2) CELL) (mkSize (100 # 1) EM)).
+Proof. vm_compute. repeat split. Qed.
 Example C18_ex_attribute_roundtrip :
   let p := {| pd_before := mkSize (2675 # 1000) PX; pd_after := mkSize (1 # 8) PCT; pd_start := mkSize (5 # 10) CELL; pd_end := mkSize (100 # 1) EM |} in
   padding_attr p = lit "2.68px 100em 0.12% 0.5c"
